@@ -1,5 +1,5 @@
-CONSTANTS Procs = {p1, p2, p3}  None = none  MaxRounds = 2  MaxKills = 2
+CONSTANTS Procs = {p1, p2, p3}  None = none  MaxRounds = 2  MaxKills = 2  ClosesOnRefusal = TRUE
 SPECIFICATION FairSpec
-INVARIANTS Inv_Mutex Inv_JournalSound Inv_NoOrphan Inv_JournalTracks
+INVARIANTS Inv_Mutex Inv_JournalSound Inv_NoOrphan Inv_JournalTracks Inv_HolderOwns Inv_NoStaleDescriptor
 PROPERTY Available
 CHECK_DEADLOCK FALSE
